@@ -166,8 +166,17 @@ func (s *ScanMethod) ProcessPacketData(data []byte, _ *gopacket.CaptureInfo) (er
 	return
 }
 
+// validPacket checks that exactly the expected header chain was decoded from this packet,
+// otherwise some of the reused layer structs still hold data of a previous packet
 func validPacket(decoded []gopacket.LayerType) bool {
-	return len(decoded) == 3 || (len(decoded) == 2 && decoded[0] == layers.LayerTypeIPv4)
+	switch len(decoded) {
+	case 3:
+		return decoded[0] == layers.LayerTypeEthernet &&
+			decoded[1] == layers.LayerTypeIPv4 && decoded[2] == layers.LayerTypeTCP
+	case 2:
+		return decoded[0] == layers.LayerTypeIPv4 && decoded[1] == layers.LayerTypeTCP
+	}
+	return false
 }
 
 type PacketFiller struct {
